@@ -71,12 +71,20 @@ impl<'a> G<'a> {
     }
 
     fn setup(&mut self) -> Vec<String> {
-        let mut forms = vec![];
+        // a structural copy written with car/cdr/cons and the vector conversions only
+        let mut forms = vec!["(define (dcopy x) (if (pair? x) (cons (dcopy (car x)) (dcopy (cdr x))) (if (vector? x) (list->vector (dcopy (vector->list x))) x)))".to_string()];
         for i in 0..POOL {
             let (form, kind) = match self.rng.usize(10) {
                 0 => (format!("(define o{} (list {} {} {}))", i, scalar(self.rng), scalar(self.rng), scalar(self.rng)), 'l'),
                 1 => (format!("(define o{} '())", i), 'l'),
-                2 => (format!("(define o{} (cons {} {}))", i, scalar(self.rng), rng_pick(self.rng, &["5", "'t", "#\\z"])), 'l'), // improper
+                2 => {
+                    // improper: the tail is a scalar, a string, a vector, or a vector of the pool
+                    let tail = match self.obj('v', i) {
+                        Some(j) if self.rng.chance(1, 4) => format!("o{}", j),
+                        _ => rng_pick(self.rng, &["5", "'t", "#\\z", "(vector 1)", "(vector)", "\"s\""]),
+                    };
+                    (format!("(define o{} (cons {} {}))", i, scalar(self.rng), tail), 'l')
+                }
                 3 if i > 0 => match self.obj('l', i) {
                     Some(j) => (format!("(define o{} (cons {} o{}))", i, scalar(self.rng), j), 'l'), // shares a tail
                     None => (format!("(define o{} (list 1))", i), 'l'),
@@ -266,7 +274,7 @@ impl<'a> G<'a> {
                 name = "equal?/eq?";
                 let a = self.any_obj(POOL);
                 let b = self.any_obj(POOL);
-                format!("(list (equal? o{a} o{b}) (equal? o{a} (if (vector? o{a}) (vector-copy o{a}) (if (pair? o{a}) (append o{a} '()) o{a}))) (eq? o{a} o{a}))", a = a, b = b)
+                format!("(list (equal? o{a} o{b}) (equal? o{a} (dcopy o{a})) (eq? o{a} o{a}))", a = a, b = b)
             }
         };
         self.tags.push(name.to_string());
